@@ -225,4 +225,8 @@ theorem argv_faithful :
 
 example : argvPass .x (.int 5000000000) = .ok (.int 5000000000) := by decide
 
+/-- `mpt_fpoint_set` (mptplot, a consumer of `mpt_iterator_consume`): both coordinates are consumed as 'f' straight
+    into the float members, so what it stores is what the 'f' conversion delivers (`float_no_saturation`). -/
+theorem fpoint_consumes_float : Generated.fpointConsume = [(Ty.code .f, true), (Ty.code .f, true)] := by decide
+
 end Mpt.C07
